@@ -83,7 +83,7 @@ def mem_text(m, form_op=None):
 
 
 # mnemonics whose Intel-syntax text is ambiguous or means something else to LLVM: no LLVM verdict for them
-NO_LLVM_TEXT = {"lcall", "ljmp", "invlpga", "movabs"}
+NO_LLVM_TEXT = {"lcall", "ljmp", "invlpga", "invlpgb", "movabs", "clzero", "monitor", "monitorx", "mwait", "mwaitx", "vmload", "vmsave", "vmrun", "umonitor"}
 # the database names the 16-bit forms popf/pushf/popa/pusha/iret (32/64-bit: popfd/popfq, ...); LLVM names them ...w
 LLVM_NAME = {"popf": "popfw", "pushf": "pushfw", "popa": "popaw", "pusha": "pushaw", "iret": "iretw"}
 
